@@ -19,7 +19,7 @@ ASSUMPTIONS = [
     "Unicode text = sequences of scalar values (no lone surrogates)",
     "a watchdog firing (30 s per tree) is reported as inconclusive, never as a violation",
 ]
-REQUIRED = ["typed_table_values", "trees_validated_again_after_in_place_edits", "first_use_probes", "repeatability_checks", "trees_valid", "trees_invalid", "tree_calls", "node_calls", "config_fault_cases", "depth_ge_50", "fanout_ge_30"]
+REQUIRED = ["vocabulary_sweep_nodes", "vocabulary_sweep_trees", "typed_table_values", "trees_validated_again_after_in_place_edits", "first_use_probes", "repeatability_checks", "trees_valid", "trees_invalid", "tree_calls", "node_calls", "config_fault_cases", "depth_ge_50", "fanout_ge_30"]
 EXHAUSTIVE = {"quick": False, "thorough": False}
 
 
@@ -205,6 +205,55 @@ def typed_table_sweep(ctx):
             emlkit.discard(n)
 
 
+def vocabulary_sweep(ctx, gen):
+    """Every element the library knows: its minimal tree with words of the domain in every declared attribute and as content (ORCID iDs
+    ending in X, DOIs without a scheme, directory and function values the rule table does not enumerate), and a few random valid trees
+    (optional children such as times with and without offsets included): validation comes back in both modes."""
+    from vlib import domain
+    rng = ctx.rng
+    for e in mrule.node_names():
+        if not gen.buildable(e):
+            continue
+        rule_name = mrule.node_mappings[e]
+        declared = list(emlkit.rules_table()[rule_name][0])
+        for k in range(6):
+            t = gen.minimal_tree(e)
+            for a in declared:
+                if k % 2 == 0 or rng.random() < 0.5:
+                    t.add_attribute(a, rng.choice(domain.ATTRIBUTE_WORDS))
+            if not t.children or k >= 3:
+                t.content = rng.choice(domain.CONTENT_WORDS)
+            call_both(ctx, mvalidate.node, f"validate.node(<{e}> with domain words)", t,
+                      lambda t=t: {"tree": snapshot.to_plain(t), "origin": "vocabulary sweep", "node_only": True})
+            ctx.evaluated(2)
+            ctx.count("vocabulary_sweep_nodes")
+            emlkit.discard(t)
+        # free-form attributes of childless elements (userId/@directory, url/@function, ...): every domain word against a dozen contents
+        if not emlkit.spec_of(rule_name).names:
+            for a in declared:
+                if len(emlkit.rules_table()[rule_name][0][a]) > 1:
+                    continue
+                for w in domain.ATTRIBUTE_WORDS:
+                    for c in domain.CONTENT_WORDS[:8] + domain.CONTENT_WORDS[-4:]:
+                        t = Node(e, content=c)
+                        t.add_attribute(a, w)
+                        call_both(ctx, mvalidate.node, f"validate.node(<{e} {a}={w!r}> with content {c!r})", t,
+                                  lambda t=t: {"tree": snapshot.to_plain(t), "origin": "vocabulary sweep", "node_only": True})
+                        ctx.evaluated(2)
+                        ctx.count("vocabulary_sweep_nodes")
+                        emlkit.discard(t)
+        for k in range(5):
+            t = gen.valid_tree(e, rng, 25)
+            for x in rng.sample(treegen.all_nodes(t), min(3, len(treegen.all_nodes(t)))):
+                for a in list(emlkit.rules_table().get(mrule.node_mappings.get(x.name), [{}])[0]):
+                    x.add_attribute(a, rng.choice(domain.ATTRIBUTE_WORDS))
+                if not x.children:
+                    x.content = rng.choice(domain.CONTENT_WORDS + [x.content] * 8)
+            judge_tree(ctx, t, "vocabulary sweep: valid tree with domain words")
+            ctx.count("vocabulary_sweep_trees")
+            emlkit.discard(t)
+
+
 def first_use_probes(ctx):
     """At the very start of the process, per rule: a node that is invalid in three ways (missing required attributes, wrong
     content, a disallowed child) is validated three times in each mode, alternating; every repetition must give the same verdict
@@ -250,6 +299,8 @@ def run(ctx, params):
     try:
         config_fault(ctx)
         typed_table_sweep(ctx)
+        if params.get("salt", 0) == 0:
+            vocabulary_sweep(ctx, gen)
         rng = ctx.rng
         for label, t in anytrees.allowed_unknown_cases(gen):
             ff, errs = judge_tree(ctx, t, "allowed-but-unknown child " + label)
